@@ -13,6 +13,7 @@ import sys
 sys.path.insert(0, os.path.dirname(os.path.abspath(__file__)))
 from pblint.model import Repo  # noqa: E402
 from pblint.desugar import inventory_of_function  # noqa: E402
+from pblint.hazards import effects_of  # noqa: E402
 
 
 def main(root='/repo'):
@@ -27,12 +28,14 @@ def main(root='/repo'):
         consts = sorted(m.bindings.keys())
         classes = {}
         for cn, ci in sorted(m.classes.items()):
-            classes[cn] = {'attrs': sorted(ci.attrs.keys()), 'methods': sorted(ci.methods.keys())}
+            classes[cn] = {'attrs': sorted(ci.attrs.keys()), 'methods': sorted(ci.methods.keys()), 'slots': list(ci.slots or [])}
         funcs = {}
         for q, fi in sorted(repo.functions.items()):
             if fi.module is not m:
                 continue
             funcs[q] = inventory_of_function(fi.node)
+            funcs[q]['stores'] = sorted({n.attr for n in ast.walk(fi.node) if isinstance(n, ast.Attribute) and isinstance(n.ctx, ast.Store)})
+            funcs[q]['effects'] = effects_of(fi.node, set(m.bindings.keys()), m)
         inv['modules'][name] = {'names': consts, 'classes': classes, 'functions': funcs}
     out = os.path.join(os.path.dirname(os.path.abspath(__file__)), 'pblint', 'inventory.json')
     json.dump(inv, open(out, 'w'), indent=0)
